@@ -35,6 +35,7 @@ Definition set_cur s c := mkSt c (sec s) (alt s) (ust s) (memo s).
 Definition set_alt s a := mkSt (cur s) (sec s) a (ust s) (memo s).
 Definition set_sec s l := mkSt (cur s) l (alt s) (ust s) (memo s).
 Definition set_memo s t := mkSt (cur s) (sec s) (alt s) (ust s) t.
+Definition set_ust s u := mkSt (cur s) (sec s) (alt s) u (memo s).
 
 Definition ckpt := (nat * nat * N)%type.
 Definition save (s : st) : ckpt := (cur s, length (sec s), ust s).
@@ -923,6 +924,15 @@ Fixpoint go (n : nat) (m : mode) (g : G) (ctx : env) (s : st) {struct n} : outco
       end
   | Pratt atom ops => pratt_go run n' m atom ops ctx 0 s
   | GroupArr gs => group_loop run m gs ctx [] s
+  | WithState k a =>
+      (* combinator.rs WithState::go: the sub-parser sees a clone of the given state, which receives the on_token calls
+         of what it consumes; the outer state comes back untouched.  The user state is then no longer a function of the
+         position, which the specification assumes: like nested_in this construct is only available in the extended
+         configuration ([nested Q] set), the one tied to the code by the correspondence run *)
+      match nested Q with
+      | None => (Panic 96, s)
+      | Some _ => match run m a ctx (set_ust s k) with (r, s1) => (r, set_ust s1 (ust s)) end
+      end
   | Skip k => (Ok (bindv m VUnit), skip_loop k s)
   | ExtWrap a =>
       (* extension.rs Ext::go: M::choose(parse, check) = InputRef::parse / InputRef::check of the wrapped parser in the
